@@ -117,6 +117,8 @@ def check(run, prog):
         ck.same("R3", prog.getter("Signal", "stop_time").where, f"{clsname}.stop_time without start", "is None iff start_time is None",
                 sn is NONE, found=repr(sn))
         _contains(ck, prog, ev, z, zn, prog.func("Signal.contains"), f"{clsname}.contains")
+        # `t in z` is the sibling route of contains(t): the operator must give the same verdict
+        _contains(ck, prog, ev, z, zn, prog.func("Signal.__contains__"), f"{clsname}.__contains__  (t in z)")
     # ------------------------------------------------------------------ NT: the index may be made of NumPy integers
     for clsname, fi_ in (("Signal", f_gi), ("RadioSignal", f_rgi)):
         for label, mkidx in (("z[2:50:3]", lambda mk: SliceV(mk(2), mk(50), mk(3))), ("z[::4]", lambda mk: SliceV(NONE, NONE, mk(4))),
@@ -190,6 +192,7 @@ def _reader_siblings(ck, prog):
     if dt is not None:
         ck.eq("R3", prog.getter("BaseReader", "dt").where, "BaseReader.dt", "== 1/sample_rate", dt, 1 / (SR * Hz))
     _contains(ck, prog, ev, r, rn, prog.func("BaseReader.contains"), "BaseReader.contains")
+    _contains(ck, prog, ev, r, rn, prog.func("BaseReader.__contains__"), "BaseReader.__contains__  (t in reader)")
 
 
 def _bounds_of(idx):
